@@ -116,6 +116,26 @@ FitCasesOf(fam) ==
     {<<fam, AsSeq(fam, F), m, d>> : F \in FixSets(fam), m \in FitMethods, d \in DataKinds}
 FitCases == UNION {FitCasesOf(fam) : fam \in Families}
 
+(* special fixed values (one parameter fixed, MLE, own-family data): values that a        *)
+(* truthiness test, a type test or a range reduction would treat differently from a       *)
+(* regular float.  Location-like parameters admit 0.0 / integer 0 / -0.0 / a negative       *)
+(* value; the von Mises location also a value outside [-pi, pi] ("wrap", 4.0); every other   *)
+(* parameter an integer-typed value ("int", e.g. f_delta = 5); every parameter a value far   *)
+(* from the data-generating one ("far").  The specified outcome is the regular one: the      *)
+(* fit succeeds, the fixed value is unchanged, the free parameters are estimated.            *)
+LocLike(fam, n) ==
+    <<fam, n>> \in {<<"Normal", "mu">>, <<"Weibull", "gamma">>, <<"LogNormal", "mu">>,
+                    <<"VonMises", "mu">>, <<"ScipyGamma", "loc">>, <<"ScipyRayleigh", "loc">>,
+                    <<"ScipyBeta", "loc">>}
+ZeroKinds == {"zero", "intzero", "negzero"}
+SpecialKinds(fam, n) ==
+    IF LocLike(fam, n)
+    THEN ZeroKinds \cup {"neg", "far"} \cup (IF fam = "VonMises" THEN {"wrap"} ELSE {})
+    ELSE {"int", "far"}
+SpecialFitCasesOf(fam) ==
+    UNION {{<<fam, n, k>> : k \in SpecialKinds(fam, n)} : n \in Names(fam)}
+SpecialFitCases == UNION {SpecialFitCasesOf(fam) : fam \in Families}
+
 (* conditional distribution with fixed parameters: every non-empty proper subset fixed,  *)
 (* the others dependent                                                                  *)
 CondFixCasesOf(fam) == {<<fam, AsSeq(fam, F)>> : F \in (FixSets(fam) \ {{}})}
